@@ -47,3 +47,63 @@ Theorem C10_decomposition_inverts_build_fit_matrix : forall rx ry sx sy,
   gsx p0 q0 = sx /\ gsy p1 q1 = sy /\ grotx p0 q0 = rx /\ groty p1 q1 = ry.
 Proof. exact decomposition_of_built_matrix. Qed.
 Print Assumptions C10_decomposition_inverts_build_fit_matrix.
+
+(* ---- statistics (over Q; ClipModel.stat2_encl is the executable model of _compute_stat that the C07/C10
+        correspondence evaluates against the implementation's reported rmse / mae / std) ---- *)
+From Coq Require Import QArith List.
+From TW Require Import LinearFit ClipModel Stats.
+Import ListNotations.
+Close Scope R_scope.
+Open Scope Q_scope.
+
+(* rmse^2 = sum w |r|^2 / sum w *)
+Theorem C10_rmse2 : forall f pw weighted,
+  fst (stat2_encl SRmse weighted f pw) == psum (fun a => snd a * r2 f (fst a)) pw / psum snd pw /\
+  snd (stat2_encl SRmse weighted f pw) == psum (fun a => snd a * r2 f (fst a)) pw / psum snd pw.
+Proof. exact rmse2_value. Qed.
+Print Assumptions C10_rmse2.
+
+(* std^2 = (rmse^2 - |weighted mean residual|^2) / (1 - sum w^2 / W^2) with reliability weights ... *)
+Theorem C10_std2_weighted : forall f pw, ~ psum snd pw == 0 -> (2 <= length pw)%nat ->
+  let W := psum snd pw in
+  let mx := psum (fun a => snd a * rx f (fst a)) pw / W in
+  let my := psum (fun a => snd a * ry f (fst a)) pw / W in
+  fst (stat2_encl SStd true f pw) ==
+  (psum (fun a => snd a * r2 f (fst a)) pw / W - (mx * mx + my * my)) / (1 - psum (fun a => snd a * snd a) pw / (W * W)).
+Proof. exact std2_weighted. Qed.
+Print Assumptions C10_std2_weighted.
+
+(* ... a denominator that is positive whenever the formula is used (two or more positively weighted points):
+   the totalised division of the model hides no division by zero *)
+Theorem C10_std2_denominator_positive : forall pw : list (pt4 * Q),
+  (forall a, In a pw -> 0 < snd a) -> (2 <= length pw)%nat ->
+  0 < 1 - psum (fun a => snd a * snd a) pw / (psum snd pw * psum snd pw).
+Proof. exact std2_weighted_denominator. Qed.
+Print Assumptions C10_std2_denominator_positive.
+
+(* ... and the population form without weights *)
+Theorem C10_std2_unweighted : forall f pw, ~ psum snd pw == 0 ->
+  let W := psum snd pw in
+  let mx := psum (fun a => snd a * rx f (fst a)) pw / W in
+  let my := psum (fun a => snd a * ry f (fst a)) pw / W in
+  fst (stat2_encl SStd false f pw) == psum (fun a => snd a * r2 f (fst a)) pw / W - (mx * mx + my * my).
+Proof. exact std2_unweighted. Qed.
+Print Assumptions C10_std2_unweighted.
+
+(* mae: the rational enclosure used by the correspondence is ordered, and mae <= rmse (lower end; Cauchy-Schwarz) *)
+Theorem C10_mae_enclosure_ordered : forall weighted f pw, (forall a, In a pw -> 0 <= snd a) ->
+  fst (stat2_encl SMae weighted f pw) <= snd (stat2_encl SMae weighted f pw).
+Proof. exact mae_enclosure_ordered. Qed.
+Print Assumptions C10_mae_enclosure_ordered.
+Theorem C10_mae_at_most_rmse : forall weighted f pw, (forall a, In a pw -> 0 <= snd a) -> 0 < psum snd pw ->
+  fst (stat2_encl SMae weighted f pw) <= fst (stat2_encl SRmse weighted f pw).
+Proof. exact mae_lower_end_at_most_rmse. Qed.
+Print Assumptions C10_mae_at_most_rmse.
+
+(* non-vacuity: residuals (3,4) and (0,0) with weights 1, 1: rmse^2 = 25/2, mae in [5/2, 5/2], weighted std^2 = 25/2 *)
+Example C10_stats_witness :
+  let f := {| f00 := 1; f01 := 0; f10_ := 0; f11_ := 1; fs0 := 0; fs1 := 0 |} in
+  let pw := [({| qx := 3; qy := 4; qu := 0; qv := 0 |}, 1); ({| qx := 1; qy := 1; qu := 1; qv := 1 |}, 1)] in
+  stat2_encl SRmse true f pw = (25 # 2, 25 # 2) /\ stat2_encl SMae true f pw = (25 # 4, 25 # 4) /\
+  stat2_encl SStd true f pw = (25 # 2, 25 # 2).
+Proof. vm_compute. repeat split. Qed.
